@@ -546,6 +546,40 @@ class Seg:
         self.text, self.kind, self.file, self.line, self.label = text, kind, file, line, label
 
 
+
+FRAME_PATTERNS = [
+    r'\b%(n)s\b[^;{}]*\bas\s*\*\s*mut\b',                       # input.as_ptr() as *mut _ / input as *const _ as *mut _
+    r'\bfrom_raw_parts_mut\s*\([^;]*\b%(n)s\b',                    # slice::from_raw_parts_mut(input.as_ptr() ...)
+    r'\b%(n)s\b[^;{}]*\.\s*cast_mut\s*\(',                         # input.as_ptr().cast_mut()
+    r'\btransmute\b[^;]*\(\s*[^;]*\b%(n)s\b',                     # mem::transmute(input) (not workaround_transmute: shared -> shared)
+    r'\bworkaround_transmute_mut\s*\(\s*&?\s*%(n)s\b',           # re-typing helper for mutable slices applied to the shared input
+    r'&\s*mut\s*\*\s*\([^;]*\b%(n)s\b[^;]*\*\s*mut\b',
+]
+
+
+def frame_scan(text):
+    """C15 frame obligation: a function that receives a SHARED slice (`name: &[..]`) must not manufacture a mutable alias of it.
+    Returns [(param, matched text)] for every construct in the body that re-types such a parameter (or a pointer derived from it
+    in the same expression) as mutable.  Safe Rust cannot write through `&[T]`; these are the only ways around the borrow checker."""
+    m = rsscan.mask(text)
+    fk = re.search(r'\bfn\b', m)
+    if not fk:
+        return []
+    bo = rsscan.find_body_open(m, fk.start())
+    if bo < 0:
+        return []
+    sig, body = m[:bo], m[bo:]
+    hits = []
+    for pm in re.finditer(r'\b(\w+)\s*:\s*&\s*(?:\'\w+\s+)?\[', sig):
+        name = pm.group(1)
+        for pat in FRAME_PATTERNS:
+            for mt in re.finditer(pat % {'n': re.escape(name)}, body):
+                if 'workaround_transmute(' in mt.group(0) and 'transmute_mut' not in mt.group(0) and 'as *mut' not in mt.group(0).replace('as  *mut', 'as *mut'):
+                    continue
+                hits.append((name, ' '.join(text[bo + mt.start():bo + mt.end()].split())[:160], text[:bo + mt.start()].count('\n')))
+    return hits
+
+
 class FnEdit:
     def __init__(self):
         self.generics = []   # (param, tyvar)
@@ -1052,6 +1086,24 @@ class Generator:
         self._emit_fn(text, frel, line0, '%s!' % macro, kv, edit, trel, tline)
 
     def _emit_fn(self, text, frel, line0, path, kv, edit, trel, tline):
+        fhits = frame_scan(text)
+        if fhits:
+            # the frame obligation fails: emit a named, failing obligation tagged C15 and keep the function as an assumed stub so that
+            # the rest of the unit still checks
+            fname = re.search(r'\bfn\s+(\w+)', rsscan.mask(text)).group(1)
+            for (pname, what, dl) in fhits[:1]:
+                self.emit('proof fn verif_frame_%s_%d()\n    ensures false, // @C15 frame: shared input `%s` is re-typed as mutable (%s)\n{}' % (fname, len(self.functions), pname, what.replace('\n', ' ').replace('*/', '* /')), 'repo', frel, line0 + dl, 'frame:' + fname)
+            self.log.append({'frame_violation': path, 'param': fhits[0][0], 'text': fhits[0][1]})
+            self._count('frame-obligation-failed')
+            # keep signature-level edits only; the body is dropped
+            e2 = FnEdit()
+            e2.generics, e2.ret, e2.spec, e2.attrs, e2.specof = edit.generics, edit.ret, edit.spec, [a for a in edit.attrs if 'loop_isolation' not in a], edit.specof
+            e2.subs = [(x[0], x[1], True) for x in edit.subs]
+            e2.external = True
+            edit = e2
+            m0 = rsscan.mask(text)
+            bo0 = rsscan.find_body_open(m0, re.search(r'\bfn\b', m0).start())
+            text = text[:bo0] + '{ }' + '\n' * text[bo0:].count('\n')
         text = self._apply_rules(text, frel, line0)
         if edit.selfmut:
             # R15: `mut self` receiver (unsupported by Verus) -> `self` moved into a mutable local of the given name; every
